@@ -35,9 +35,11 @@ for lj in sorted(glob.glob('/verif/seeded/benign/*/list.json')):
         for u in units:
             rcx, outx = sh('cd /verif && XV_REPO=%s ./xv unit %s' % (WT, u))
             last = outx.strip().splitlines()[-1] if outx.strip() else ''
-            bad = [l.strip()[:200] for l in outx.splitlines() if l.startswith('  BAD')][:4]
+            known = [f['obligation'] for f in json.load(open('/verif/known_findings.json'))['findings'] if f['status'] == 'known']
+            bad = [l.strip()[:200] for l in outx.splitlines() if l.startswith('  BAD') and ' XASSERT ' not in l and not any(k in l for k in known)][:4]
             prob = [l[:300] for l in outx.splitlines() if l.startswith('PROBLEM')][:3]
-            if not last.endswith('0 not as expected, 0 problems'): r[u] = dict(last=last[-200:], bad=bad, problems=prob, tail=outx[-400:] if not (bad or prob) else '')
+            nbad = len([l for l in outx.splitlines() if l.startswith('  BAD')]); m = re.search(r'(\d+) not as expected, (\d+) problems$', last)
+            if not m or m.group(2) != '0' or bad or int(m.group(1)) != nbad: r[u] = dict(last=last[-200:], bad=bad, problems=prob, tail=outx[-400:] if not (bad or prob) else '')
             else: r[u] = 'ok'
         sh('git -C %s checkout -q -- .' % WT)
         res[key] = r
